@@ -16,7 +16,7 @@ import zipfile
 from . import fsfault
 from .fsfault import Fault
 from .kernel import HarnessError, rng_for, stable_hash
-from .runner import Stats, load_known, match_known
+from .runner import Stats, digest_dump, load_known, match_known
 
 PROP = "C20"
 PLAN = {"quick": {"budget_s": 50, "max_runs": 600}, "thorough": {"budget_s": 900, "max_runs": 40000}}
@@ -444,6 +444,7 @@ def explore_scenario(p, root, stats, only=None):
         raise HarnessError(f"reference run of scenario {p['index']} ({p['kind']}): raised={ref['info'].get('raised')!r} "
                            f"expected_raise={expected_raise}\n{ref['info'].get('tb', '')}")
     stats["scenarios"] += 1
+    digest_dump(p["index"], stable_hash([ref["trace"], ref["marks"]]))
     Stats.merge(stats["scenario_kinds"], {p["kind"]: 1})
     stats["ops_total"] += ref["n"]
     stats["max_ops"] = max(stats["max_ops"], ref["n"])
